@@ -13,7 +13,7 @@ def _outcome(exc):
 
     if exc is None:
         return "ok"
-    if isinstance(exc, CompilerError):
+    if isinstance(exc, CompilerError) or type(exc).__name__ == "IrParseException":
         return "diag"
     return "error:" + type(exc).__name__
 
